@@ -1,4 +1,4 @@
-import CedarVerif.Lemmas.PartialStore1
+import CedarVerif.Lemmas.PartialStoreU
 /-
 C13, partial stores and residual contexts: the store-dependent binary operators and the request variables of the first
 pass under `StoreCompletes` / `Concretizes2`.
@@ -7,7 +7,7 @@ namespace Cedar
 namespace PS
 
 section
-variable {σ : Mapper} {req : Request} {es : Entities} {env : SlotEnv} {pes : PEntities}
+variable {σ : Mapper} {req : Request} {es : Entities} {env : SlotEnv} {pes : PEntities} {U : EntityUID → Prop}
 
 theorem evalIn_sound (u1 : EntityUID) (anc : Option (List EntityUID)) (v2 : Value)
     (hin : ∀ u2, inE es u1 u2 = (u1 == u2 || (match anc with | some a => a.contains u2 | none => false))) :
@@ -31,7 +31,9 @@ theorem evalIn_sound (u1 : EntityUID) (anc : Option (List EntityUID)) (v2 : Valu
   | record kvs => exact s2_err .type rfl
   | ext x => exact s2_err .type rfl
 
-theorem papplyBinary_sound3 (hS : StoreCompletes σ pes es) (op : BinaryOp) {v1 v2 : Value} (h1 : v1.Canon) (h2 : v2.Canon) :
+/-- the value/value arm, relativised: `Bound` is needed only for the uid of the left operand, which lies in `U` -/
+theorem papplyBinary_sound3_on (hS : StoreCompletesOn U σ pes es) (op : BinaryOp) {v1 v2 : Value} (h1 : v1.Canon) (h2 : v2.Canon)
+    (hU1 : VIn U v1) :
     Sound2 σ req es env (applyBinary es op v1 v2) (papplyBinary pes op v1 v2) := by
   cases hop : op.storeFree with
   | true =>
@@ -54,7 +56,7 @@ theorem papplyBinary_sound3 (hS : StoreCompletes σ pes es) (op : BinaryOp) {v1 
         · rw [hE]
           exact evalIn_sound u1 none v2 (by intro u2; simp only [inE, hS.noSuch hf hp])
         · rw [hE]
-          have hb := hS.bound hf hp
+          have hb := hS.bound hf hp (hU1 _ (by simp [Cedar.Tpe.valueUids]))
           refine s2_res ?_ (typedOK_vacuous (by intro _ _ h; cases h))
             (.binaryApp .mem (.unknown _ _ (unkOK_of_bound hb)) (frag2_toExpr σ v2 h2))
           have e1 := Y_bound req es env hb
@@ -84,7 +86,7 @@ theorem papplyBinary_sound3 (hS : StoreCompletes σ pes es) (op : BinaryOp) {v1 
               exact sound2_ofPV hav
           · rw [hE]; simp only [hS.noSuch hf hp]; exact s2_err .entity rfl
           · rw [hE]
-            have hb := hS.bound hf hp
+            have hb := hS.bound hf hp (hU1 _ (by simp [Cedar.Tpe.valueUids]))
             have hv2 : v2 = .prim (.string t) := by
               unfold Value.asString at hs
               split at hs
@@ -114,7 +116,7 @@ theorem papplyBinary_sound3 (hS : StoreCompletes σ pes es) (op : BinaryOp) {v1 
             exact s2_val (by rw [htags.isSome t]) trivial
           · rw [hE]; simp only [hS.noSuch hf hp]; exact s2_val rfl trivial
           · rw [hE]
-            have hb := hS.bound hf hp
+            have hb := hS.bound hf hp (hU1 _ (by simp [Cedar.Tpe.valueUids]))
             have hv2 : v2 = .prim (.string t) := by
               unfold Value.asString at hs
               split at hs
@@ -128,6 +130,10 @@ theorem papplyBinary_sound3 (hS : StoreCompletes σ pes es) (op : BinaryOp) {v1 
             rw [e1]
             simp only [applyBinary, bind, Except.bind, he, hs]
             exact Agree.refl _
+
+theorem papplyBinary_sound3 (hS : StoreCompletes σ pes es) (op : BinaryOp) {v1 v2 : Value} (h1 : v1.Canon) (h2 : v2.Canon) :
+    Sound2 σ req es env (applyBinary es op v1 v2) (papplyBinary pes op v1 v2) :=
+  papplyBinary_sound3_on (U := fun _ => True) (storeCompletesOn_of hS) op h1 h2 (fun _ _ => trivial)
 
 end
 
